@@ -27,6 +27,9 @@ SETUP = ('V_BIG = []; V_BIG resize 1000; {V_BIG set [_forEachIndex, _forEachInde
          'V_SCR = [] spawn {}; V_MAP = createHashMapFromArray [[1,2],["a",[3]]]; V_CFG = configFile >> "CfgA"; V_MRK = createMarker ["mk", [1,2]];')
 CONFIG = 'class CfgA { x = 1; s = "str"; arr[] = {1,2,{3}}; class Sub { y = 2; }; class Der : Sub { z = 3; }; }; class Empty {};'
 
+# re-created before every call: operands that the call itself may shrink, and long arrays of equal / mixed elements
+PER_CALL = ('V_SHR = [1,2,3,4,5,6]; V_EQ20 = []; for "_i" from 1 to 20 do {V_EQ20 pushBack [1,2]}; '
+            'V_MIX20 = []; for "_i" from 1 to 5 do {V_MIX20 append [_i, "s", [_i], true]}; ')
 POOLS = {
     "SCALAR": ["1", "0", "(-1)", "0.5", "2", "5", "(-0.5)", "16777216", "1e10", "3e38", "(-3e38)", "(1e38*10)", "(sqrt -1)", "1e-38", "2147483648", "(-2147483649)", "4294967296", "1000", "100000"],
     "BOOL": ["true", "false"],
@@ -34,8 +37,11 @@ POOLS = {
                '"CfgA"', '"mk"', '"B_Soldier_F"', '"_a"', '"1 + 1"', '"#define A A"', '"class X{};"', '"nofile.sqf"', '"%1%2%3%4%5%6%7%8%9%10%11"', '","', '"aaa,bbb"', '"ÿþ"'],
     "ARRAY": ["[1,2,3]", "[]", "[1]", '[1,"a",true]', "[nil]", "[[1,2],[3,4]]", "[[[[]]]]", "(V_BIG + [])", "[0,1e9]", "[200,2e9]", "[-1]", "[0.5]", '["a","b"]', "[objNull]", "[{},{}]", '["",0]',
               "[1,2]", "[0,0,0]", "[1e38,1e38,1e38]", "[-1,-1]", "[2,-1]", "[5,1]", '["_a","_b"]', '["_a",[1]]', "[[],[]]", "[3e38]", "[(sqrt -1)]", "[1,[2,[3,[4]]]]", '["%1",1]', '["%5"]',
-              '[V_LONG]', "[true,false]", "[1,nil,3]", '[[1,"a"],[2,"b"]]', "[[1,2,3],[1,2]]", '["a",1]', "[V_OBJ]", "[west]", '["B_Soldier_F",[0,0,0],[],0,"NONE"]', "[configFile]", "[1,2,3,4,5,6,7,8,9,10]"],
-    "CODE": ["{}", "{nil}", "{5}", "{true}", "{false}", "{throw 1}", "{_x}", "{[]}", '{"a"}', "{_x > 1}", "{1 + \"a\"}", "{_this}", "{V_BIG resize 0}"],
+              '[V_LONG]', "[true,false]", "[1,nil,3]", '[[1,"a"],[2,"b"]]', "[[1,2,3],[1,2]]", '["a",1]', "[V_OBJ]", "[west]", '["B_Soldier_F",[0,0,0],[],0,"NONE"]', "[configFile]", "[1,2,3,4,5,6,7,8,9,10]",
+              # the array the CODE pool's mutators shrink while an operator iterates it; long arrays of equal / mixed elements (sort); range and format edge cases
+              "V_SHR", "V_EQ20", "V_MIX20", "[1,1e10]", "[1,3e9]", "[2,2147483647]", "[1,(1e38*10)]", '["%99999999999",1]', '["%0 %-1 % %2",1]', "[V_SHR]", "[[3,1],[2,2]]"],
+    "CODE": ["{}", "{nil}", "{5}", "{true}", "{false}", "{throw 1}", "{_x}", "{[]}", '{"a"}', "{_x > 1}", "{1 + \"a\"}", "{_this}", "{V_BIG resize 0}",
+             "{V_SHR deleteAt 0; true}", "{V_SHR resize 0; false}", "{V_SHR deleteAt 0; _x}", "{V_SHR deleteAt 0; false}"],
     "OBJECT": ["objNull", "V_OBJ", "V_OBJ2"],
     "GROUP": ["grpNull", "V_GRP"],
     "CONFIG": ["configNull", "configFile", "V_CFG", '(configFile >> "Empty")', '(configFile >> "CfgA" >> "x")', '(configFile >> "CfgA" >> "arr")', '(configFile >> "CfgA" >> "Der")', '(configFile >> "nope")'],
@@ -135,7 +141,7 @@ def run_case(r, case, fresh=True):
         r.new(vm=0, ops="full", virtual_clock=True, clock_delta_us=1000, max_runtime_ms=200000, mappings=[])
         r.cmd(dict(op="config_load", vm=0, text=CONFIG))
         r.run(SETUP, vm=0)
-    return r.run("R = " + expr_of(case) + ";", vm=0, scheduled=bool(case.get("scheduled")))
+    return r.run(PER_CALL + "R = " + expr_of(case) + ";", vm=0, scheduled=bool(case.get("scheduled")))
 
 
 def judge(case, rep):
